@@ -1370,6 +1370,34 @@ pub fn exec_via_query(store: &mut AnnotationStore, m: &Model, op: &Op) -> Option
                 },
             ))
         }
+        Op::RemoveAnnotationsOn { r } => {
+            let id = res_id(m, r)?;
+            if !q_str_ok(&id) {
+                return None;
+            }
+            let text = format!("DELETE ANNOTATION ?x {{ SELECT ANNOTATION ?x WHERE RESOURCE \"{}\"; }}", id);
+            let t2 = text.clone();
+            let r = catch(move || -> Result<(), String> {
+                let _ = stam::verif_hooks::take_query_errors();
+                let (query, rest) = Query::parse(t2.as_str()).map_err(|e| format!("parse: {}", e))?;
+                if !rest.trim().is_empty() {
+                    return Err(format!("parse left a remainder: {:?}", rest));
+                }
+                let _n = store.query_mut(query).map_err(|e| format!("{}", e))?.count();
+                if let Some(e) = stam::verif_hooks::take_query_errors().first() {
+                    return Err(format!("query error: {}", e));
+                }
+                Ok(())
+            });
+            Some((
+                text,
+                match r {
+                    Ok(Ok(())) => ExecResult::Ok(None),
+                    Ok(Err(e)) => ExecResult::Err(e),
+                    Err(p) => ExecResult::Panic(p),
+                },
+            ))
+        }
         Op::RemoveAnnotation { a } | Op::RemoveResource { r: a } | Op::RemoveDataset { s: a } => {
             let (ty, id, label) = match op {
                 Op::RemoveAnnotation { .. } => (Type::Annotation, ann_id(m, a)?, "ANNOTATION"),
